@@ -72,7 +72,9 @@ def analyse(facts):
             key = "%s|%s#%d" % (f["path"], callee, ordn[k])
             how = None
             if rest is not None:
+                _is_empty_of.allow_trim = callee.startswith("xml_xpath::expr::parse")
                 how = rest_tested(f, rest)
+                _is_empty_of.allow_trim = False
             elif letn is None:
                 how = direct_use(f, c)
             out.append({"fn": f["path"], "callee": callee, "key": key, "ok": how is not None, "how": how,
@@ -112,6 +114,9 @@ def _tail_is_err(e):
     return e.get("k") == "Call" and str(e["f"].get("path", "")).endswith("::Err")
 
 
+TRIMS = ("trim", "trim_start", "trim_end", "trim_start_matches", "trim_end_matches", "trim_matches")
+
+
 def _is_empty_of(cond, rest, negated):
     c = cond
     if c.get("k") == "Unary" and c.get("op") == "!":
@@ -120,7 +125,20 @@ def _is_empty_of(cond, rest, negated):
         c = c["a"]
     elif negated:
         return False
-    return c.get("k") == "MethodCall" and c["m"] == "is_empty" and root_local(c["recv"]) == rest
+    elif c.get("k") == "Binary" and c.get("op") == "&&":
+        # F1': `rest.is_empty() && more` - the guarded branch is entered only with an empty rest
+        return _is_empty_of(c["a"], rest, False) or _is_empty_of(c["b"], rest, False)
+    if not (c.get("k") == "MethodCall" and c["m"] == "is_empty"):
+        return False
+    r = c["recv"]
+    # `rest.trim_start_matches(white space).is_empty()`: the rest may consist of white space (XPath 3.7: white space is allowed
+    # after the last token).  Only for the expression parser - an XML document parser consumes its own trailing Misc.
+    if r.get("k") == "MethodCall" and r["m"] in TRIMS and root_local(r["recv"]) == rest:
+        return _is_empty_of.allow_trim
+    return root_local(r) == rest
+
+
+_is_empty_of.allow_trim = False
 
 
 def direct_use(f, call):
